@@ -26,9 +26,7 @@ def replay(c):
                                               {8: "unsigned char", 16: "unsigned short", 32: "unsigned", 64: "unsigned long long"}.get(bits, "unsigned long long"), x)
         main = os.path.join(d, "main.cc")
         body = c01.REPLAY_MAIN
-        if c.get("align", 1) > 1:
-            body = body.replace("static_cast<unsigned char*>(malloc(n ? n : 1))",
-                                "static_cast<unsigned char*>(aligned_alloc(64, ((n + 63) / 64 + 1) * 64))")
+        # malloc under ASan returns 16-byte aligned blocks, so the exact-size block already satisfies align <= 16
         if c.get("null"):
             body = body.replace("unsigned long long r = (unsigned long long)CALL;",
                                 "free(p); p = nullptr; unsigned long long r = (unsigned long long)CALL;").replace("  free(p);\n  return 0;", "  return 0;")
@@ -44,7 +42,9 @@ def replay(c):
         except subprocess.TimeoutExpired:
             return True, "native run timed out"
         if rc != 0:
-            return True, "sanitizer/assert report: %s" % (err or out)[-400:]
+            text = err or out
+            keys = [l for l in text.splitlines() if "ERROR:" in l or "runtime error" in l or "SUMMARY:" in l or "Assertion" in l]
+            return True, "sanitizer/assert report: %s" % ("\n".join(keys[:5]) or text[-400:])
         return False, "native run finished cleanly"
     finally:
         shutil.rmtree(d, ignore_errors=True)
